@@ -25,26 +25,43 @@ Theorem C13_decorated_names_distinct : forall dec_nat ds order acc m,
   NoDup (map fst acc) -> parse_names dec_nat ds order acc = Some m -> NoDup (map fst m).
 Proof. exact parse_names_keys_nodup. Qed.
 
-(* ... but the statement "one task per function, all ids distinct, or an error" is false of
-   the unchanged code in two ways (known findings F7, F8) *)
-Theorem C13_name_collision_refuted :
-  let ds := [mkD s_foo (Some s_foo0) None [] []; mkD s_foo None None [] []; mkD s_foo None None [] []] in
-  parse_names dec_nat1 ds [s_foo0; s_foo] [] = Some [(s_foo0, 1%nat); ([102; 111; 111; 91; 49; 93]%N, 2%nat)] /\
-  parse_names dec_nat1 ds [s_foo; s_foo0] [] = Some [(s_foo0, 0%nat); ([102; 111; 111; 91; 49; 93]%N, 2%nat)].
-Proof. exact name_collision_refuted. Qed.
+(* the ids of ALL tasks of a module - found by prefix or declared with @task, explicit names and
+   generated ids alike - are pairwise distinct, for every iteration order of the name set, or the
+   collection of the module fails (F7, F8: repaired) *)
+Theorem C13_module_ids_distinct_or_error : forall dec_nat prefixed ds order l,
+  module_tasks dec_nat prefixed ds order = Some l -> NoDup l.
+Proof. exact module_tasks_nodup. Qed.
 
-Theorem C13_prefixed_vs_decorated_refuted :
+(* and no function is lost: one task per prefixed function and per function of every name group *)
+Theorem C13_module_nothing_lost : forall dec_nat prefixed ds order l,
+  module_tasks dec_nat prefixed ds order = Some l ->
+  length l = (length prefixed + group_sizes ds order)%nat.
+Proof. exact module_tasks_length. Qed.
+
+(* what happened before the repairs (regression witnesses): a function dropped depending on
+   the order of a set; two tasks under one id *)
+Theorem C13_name_collision_regression :
+  let ds := [mkD s_foo (Some s_foo0) None [] []; mkD s_foo None None [] []; mkD s_foo None None [] []] in
+  parse_names_old dec_nat1 ds [s_foo0; s_foo] [] = Some [(s_foo0, 1%nat); ([102; 111; 111; 91; 49; 93]%N, 2%nat)] /\
+  parse_names_old dec_nat1 ds [s_foo; s_foo0] [] = Some [(s_foo0, 0%nat); ([102; 111; 111; 91; 49; 93]%N, 2%nat)] /\
+  parse_names dec_nat1 ds [s_foo0; s_foo] [] = None /\ parse_names dec_nat1 ds [s_foo; s_foo0] [] = None.
+Proof. exact name_collision_regression. Qed.
+
+Theorem C13_prefixed_vs_decorated_regression :
   let tx := [116; 97; 115; 107; 95; 120]%N in
-  module_tasks dec_nat1 [tx] [mkD [102]%N (Some tx) None [] []] [tx] = Some [tx; tx].
-Proof. exact prefixed_vs_decorated_refuted. Qed.
+  module_tasks_old dec_nat1 [tx] [mkD [102]%N (Some tx) None [] []] [tx] = Some [tx; tx] /\
+  module_tasks dec_nat1 [tx] [mkD [102]%N (Some tx) None [] []] [tx] = None.
+Proof. exact prefixed_vs_decorated_regression. Qed.
 
 Print Assumptions C13_paths_once.
 Print Assumptions C13_paths_complete.
 Print Assumptions C13_paths_sound.
 Print Assumptions C13_generated_ids_unique_or_error.
 Print Assumptions C13_decorated_names_distinct.
-Print Assumptions C13_name_collision_refuted.
-Print Assumptions C13_prefixed_vs_decorated_refuted.
+Print Assumptions C13_module_ids_distinct_or_error.
+Print Assumptions C13_module_nothing_lost.
+Print Assumptions C13_name_collision_regression.
+Print Assumptions C13_prefixed_vs_decorated_regression.
 
 (* every task file is imported as its own module, also when two paths derive the same module
    name (a.b/ vs a_b/, one package name below two roots): F9, repaired *)
